@@ -132,5 +132,9 @@ class AodRecorder:
             get_int_constant=lambda *, constant_id: _lookup(S.int_constants, constant_id, "int"),
             get_float_constant=lambda *, constant_id: _lookup(S.float_constants, constant_id, "float"),
         )
-        self.ns = dict(action=action, grid=grid, spec=spec, filled=filled, ilist=ilist, Any=Any,
+        # the list functions of kirin's ilist module that kernels use, evaluated natively
+        ilist_ns = pytypes.SimpleNamespace(IList=ilist.IList, range=lambda *a: ilist.IList(list(range(*a))),
+                                           map=lambda f, l: ilist.IList([f(x) for x in _il(l).data]),
+                                           for_each=lambda f, l: [f(x) for x in _il(l).data] and None)
+        self.ns = dict(action=action, grid=grid, spec=spec, filled=filled, ilist=ilist_ns, Any=Any,
                        tweezer=lambda f=None, **kw: (f if f is not None else (lambda g: g)))
